@@ -17,7 +17,7 @@ from ..cfg import CFG, arrival_facts, atom_of
 from ..effects import ALLOWED, EffectAnalysis
 from ..model import FuncInfo, Repo
 from ..report import Report
-from ..util import (always_raises, call_name, chain, const_value, is_const, names_stored, norm, parent_map, raised_names, short,
+from ..util import (AnalysisError, always_raises, call_name, chain, const_value, is_const, names_stored, norm, parent_map, raised_names, short,
                     walk_body, walk_local)
 
 IO_EXC = {"Exception", "BaseException", "EOFError", "OSError", "IOError", "error", "struct.error", "EnvironmentError"}
@@ -318,6 +318,82 @@ def _handler_catches_io(h: ast.ExceptHandler) -> bool:
     return False
 
 
+FIXTURE_EXEC = "def generate(self):\n    br = BitBuffer(None, self.cs.endian)\n    exec(code, {'_bit_reader': br, '_struct': _struct, **symbols}, d := {})\n"
+
+
+def _exec_global_instances(fn: ast.AST, module_level: set[str]) -> list[tuple[ast.AST, str]]:
+    """Entries of the globals dict handed to exec() that are objects created per generated reader (a call result), not module-level
+    classes / functions or the field-type table: such an object is shared by every call of that reader."""
+    from ..util import resolve_local
+
+    out = []
+    for c in ast.walk(fn):
+        if not (isinstance(c, ast.Call) and isinstance(c.func, ast.Name) and c.func.id == "exec" and len(c.args) >= 2):
+            continue
+        g = resolve_local(fn, c.args[1])
+        if not isinstance(g, ast.Dict):
+            out.append((c, f"globals '{short(c.args[1], 40)}' are not a dict display"))
+            continue
+        for k, v in zip(g.keys, g.values):
+            if k is None:
+                src = resolve_local(fn, v)
+                ok = isinstance(src, ast.DictComp) and norm(src.value).endswith(".type")
+                if not ok:
+                    out.append((v, f"'**{short(v, 30)}' is not the token -> field.type table"))
+                continue
+            val = resolve_local(fn, v)
+            if isinstance(val, ast.Name) and val.id in module_level:
+                continue
+            out.append((v, f"entry {short(k, 20)} is '{short(val, 50)}', an object created when the reader is generated"))
+    return out
+
+
+def generated_globals_rule(repo: Repo, rep: Report, rid: str) -> None:
+    rep.rule(rid, "the generated reader's globals hold only module-level classes / functions and the field-type table: no object created at generation time "
+                  "(such as a bit buffer) is shared between calls, so a failed parse cannot leave state behind for the next one")
+    mod = repo.module("compiler.py")
+    module_level = set(mod.classes) | {q for q in mod.functions if "." not in q}
+    for st in mod.tree.body:
+        if isinstance(st, (ast.Import, ast.ImportFrom)):
+            module_level |= {(a.asname or a.name).split(".")[0] for a in st.names}
+        elif isinstance(st, ast.If):
+            for s2 in ast.walk(st):
+                if isinstance(s2, (ast.Import, ast.ImportFrom)):
+                    module_level |= {(a.asname or a.name).split(".")[0] for a in s2.names}
+    fx = _exec_global_instances(ast.parse(FIXTURE_EXEC).body[0], {"BitBuffer", "_struct"})
+    if len(fx) != 2:
+        raise AnalysisError("exec-globals matcher no longer recognises its positive fixture")
+    rep.ok(rid, "fixture:exec globals with an instance", "matcher recognises the positive fixture", "", nontrivial=False)
+    n = 0
+    for fi in mod.functions.values():
+        execs = [c for c in walk_body(fi.node.body) if isinstance(c, ast.Call) and isinstance(c.func, ast.Name) and c.func.id == "exec"]
+        if not execs:
+            continue
+        n += len(execs)
+        bad = _exec_global_instances(fi.node, module_level)
+        rep.check(not bad, rid, f"{fi.key}:exec-globals", "only module-level classes / functions and the field-type table",
+                  f"the generated reader's globals contain a per-reader object: {bad[0][1] if bad else ''}; every call of the compiled _read shares it, so state "
+                  "left by a parse that raised (e.g. a bit-field unit marked as pending when the read hit EOF) is consumed by the next parse", fi.loc(bad[0][0]) if bad else fi.loc())
+    rep.floor(rid, "exec sites in compiler.py", n, 1)
+
+
+def call_shortcut_rule(repo: Repo, rep: Report, rid: str) -> None:
+    rep.rule(rid, "call syntax: S(bytes) is parsed (so short input raises) unless the structure has exactly one field, of a bytes type, and the argument "
+                  "has exactly its size - the only case where initialising and parsing coincide (StructureMetaType.__call__ folded over 16 "
+                  "(field list, arguments) cases)")
+    from ..folds import fold_structure_call
+
+    fi = repo.func("types/structure.py", "StructureMetaType.__call__")
+    fold = fold_structure_call(repo)
+    if fold is None:
+        rep.ok(rid, f"{fi.key}:fold", "not foldable with the evaluator's whitelist", fi.loc(), nontrivial=False)
+        return
+    bad = fold["bad"]
+    rep.check(not bad, rid, f"{fi.key}:fold", f"{fold['cases']} cases: bytes are parsed except in the single-bytes-field case, which records the same bookkeeping as a read",
+              f"StructureMetaType.__call__ on a structure with {bad[0][0] if bad else ''} called with {bad[0][1] if bad else ''}: {bad[0][2] if bad else ''}, "
+              f"expected {bad[0][3] if bad else ''}: input that ends after the first field would be accepted and the other fields fabricated from defaults", fi.loc())
+
+
 def run(repo: Repo, rep: Report, tier: str) -> None:
     R1, R2, R3 = "C08.R1", "C08.R2", "C08.R3"
     rep.rule(R1, "every sized stream.read(n) is length-checked (EOFError on short read) on every path before its result is used")
@@ -396,6 +472,12 @@ def run(repo: Repo, rep: Report, tier: str) -> None:
     from .c07 import clamp_rule
 
     clamp_rule(repo, rep, "C08.R4")
+    from .c05 import codec_fold_rule
+
+    codec_fold_rule(repo, rep, "C08.R5", slots=("_read", "_read_array", "_read_0"))
+    call_shortcut_rule(repo, rep, "C08.R6")
+    generated_globals_rule(repo, rep, "C08.R7")
+
 
 
 def residue_rule(repo: Repo, rep: Report, rid: str, cg: CallGraph, clo: set[str], roots: list[str]) -> None:
